@@ -1,3 +1,21 @@
 import CaddyModel.C14.Props
 open CaddyModel.C14
-#print axioms placeholder_ops_from_empty
+-- local CA
+#print axioms interrupted_startup_keeps_invariant
+#print axioms reachable_invariant
+#print axioms recovery
+#print axioms recovery_after_interrupted_creation
+#print axioms root_stable
+#print axioms intermediate_stable_until_renewal
+-- config autosave
+#print axioms autosave_always_complete
+#print axioms autosave_latest_after_return
+#print axioms autosave_only_if_persist_enabled
+#print axioms autosave_only_accepted_configs
+-- the calculus everything above rests on
+#print axioms wp_sound
+#print axioms wpn_sound
+-- the old operation orders violate the property (non-vacuity), and what Start is needed for
+#print axioms recovery_old_order_fails
+#print axioms autosave_old_style_fails
+#print axioms provision_alone_after_interrupted_renewal_mismatched
